@@ -152,7 +152,12 @@ func posOfValue(v ssa.Value) token.Pos {
 func (rf *rootFinder) resolveCall(cc *ssa.CallCommon, v ssa.Value, depth int, trail string) {
 	ci := describeCall(cc)
 	name := ci.Name
-	if name == "GetHealthyEndpoints" || name == "GetHealthy" {
+	// the only accepted source is the repository's own status-filtered query (verified by R2/R4); every wrapper
+	// around it (discovery service, adapters) is followed, so a memoised or re-filtered list in between is seen.
+	isRepoSource := func(f *ssa.Function) bool {
+		return f != nil && f.Name() == "GetHealthy" && f.Signature.Recv() != nil && isNamed(f.Signature.Recv().Type(), "internal/adapter/discovery", "StaticEndpointRepository")
+	}
+	if isRepoSource(cc.StaticCallee()) {
 		rf.roots["healthy-source:"+ci.String()] = v
 		return
 	}
@@ -164,6 +169,10 @@ func (rf *rootFinder) resolveCall(cc *ssa.CallCommon, v ssa.Value, depth int, tr
 				continue
 			}
 			n++
+			if isRepoSource(impl) {
+				rf.roots["healthy-source:"+fname(impl)] = v
+				continue
+			}
 			for _, ret := range returnsOf(impl) {
 				res := retResults(ret)
 				if len(res) == 0 {
@@ -237,7 +246,7 @@ func checkC03(c *Ctx, r *Report) {
 	r.NotDecided = "histories under racing status writers (the health checker's read-modify-write can overwrite a newer proxy-detected failure), the status at the instant of dispatch, a statically possible (nil,nil) from the least-connections accumulator."
 	r.Assumptions = []string{"interface calls are resolved by method name and types.Implements over all repo types (CHA-style, over-approximate)", "go/ssa slice provenance as in C06"}
 
-	r.Rule("C03-R1", "for each dispatch site, every ultimate source of the candidate list (parameters followed to all callers, interface results to all implementations, filters summarised as subset-preserving) is a call named GetHealthyEndpoints/GetHealthy; any other source (GetAll, GetEndpoints, a cached field, an unanalysable construction) is a violation", 4)
+	r.Rule("C03-R1", "for each dispatch site, every ultimate source of the candidate list (parameters followed to all callers, interface results to all implementations incl. the discovery-service wrappers, filters summarised as subset-preserving) is a call of StaticEndpointRepository.GetHealthy made in the same request; any other source (GetAll, GetEndpoints, a cached field, an unanalysable construction) is a violation", 4)
 	nsites := 0
 	for _, f := range c.Funcs {
 		pp := fnPkgPath(f)
@@ -302,17 +311,18 @@ func checkC03(c *Ctx, r *Report) {
 			}
 			nsites++
 			key := fname(f) + ":dispatch-candidates"
-			ok := false
-			if ex, isEx := list.(*ssa.Extract); isEx {
-				if call, isCall := ex.Tuple.(*ssa.Call); isCall {
-					n := describeCall(&call.Call).Name
-					ok = n == "GetHealthyEndpoints" || n == "GetHealthy"
+			rf := newRootFinder(c)
+			rf.visit(list, 18, fname(f))
+			ok := len(rf.bad) == 0 && len(rf.roots) > 0
+			for k := range rf.roots {
+				if !strings.HasPrefix(k, "healthy-source:") {
+					ok = false
 				}
 			}
 			if ok {
-				r.OK("C03-R1", key, in.Pos(), "engine entry queries the healthy endpoints itself")
+				r.OK("C03-R1", key, in.Pos(), "engine entry queries the healthy endpoints itself: "+strings.Join(sortedKeys(rf.roots), ", "))
 			} else {
-				r.Bad("C03-R1", key, in.Pos(), "engine entry dispatches to a list that is not the healthy-endpoint query's result")
+				r.Bad("C03-R1", key, in.Pos(), "engine entry dispatches to a list that is not the healthy-endpoint query's result", append(sortedKeys(rf.roots), rf.bad...)...)
 			}
 		})
 	}
